@@ -37,6 +37,7 @@ type ReplayDoc struct {
 	Where      string            `json:"where"`
 	Assignment map[string]string `json:"assignment"`
 	Params     map[string]int    `json:"params,omitempty"`
+	Race       bool              `json:"race_detector,omitempty"`
 	Schedule   []string          `json:"schedule,omitempty"`
 	RepoHead   string            `json:"repo_head"`
 	Result     string            `json:"native_result"`
@@ -48,7 +49,7 @@ var nativeSem = make(chan struct{}, 4)
 var _ sync.Mutex
 
 func replayCex(prop string, h *HarnessRun, cx *Counterexample) {
-	doc := &ReplayDoc{Property: prop, Harness: cx.Harness, Package: h.Spec.Pkg, Extra: h.Spec.Extra, Obligation: cx.Obligation, Kind: cx.Kind,
+	doc := &ReplayDoc{Property: prop, Harness: cx.Harness, Package: h.Spec.Pkg, Extra: h.Spec.Extra, Obligation: cx.Obligation, Kind: cx.Kind, Race: h.Spec.Race,
 		Where: cx.Where, Assignment: map[string]string{}, Schedule: cx.Sched, RepoHead: repoHead(), Params: h.params}
 	for k, v := range cx.Model {
 		doc.Assignment[k] = v
@@ -65,6 +66,28 @@ func replayCex(prop string, h *HarnessRun, cx *Counterexample) {
 	}
 	writeDoc()
 	res, out := runNative(doc)
+	if res != "confirmed" && cx.Kind == "lock-discipline" {
+		// the unguarded access is a race only in executions where the other
+		// party runs concurrently: try the other values of the harness's
+		// discrete choices (release points) under the race detector
+		names := make([]string, 0, len(cx.Choices))
+		for n := range cx.Choices {
+			names = append(names, n)
+		}
+		sort.Strings(names)
+	alt:
+		for _, n := range names {
+			orig := doc.Assignment[n]
+			for v := 0; v < 8; v++ {
+				doc.Assignment[n] = fmt.Sprint(v)
+				if r2, o2 := runNative(doc); r2 == "confirmed" {
+					res, out = r2, o2
+					break alt
+				}
+			}
+			doc.Assignment[n] = orig
+		}
+	}
 	doc.Result = res
 	doc.Output = out
 	writeDoc()
@@ -121,7 +144,11 @@ func runNative(doc *ReplayDoc) (string, string) {
 	assign := filepath.Join(tmp, "assign.json")
 	b, _ := json.Marshal(map[string]interface{}{"assignment": doc.Assignment, "params": doc.Params})
 	os.WriteFile(assign, b, 0o644)
-	cmd := exec.Command("go", "test", "-vet=off", "-count=1", "-overlay", ovPath, "-run", "^TestZZReplay$", "-v", "-timeout", "120s", doc.Package)
+	args := []string{"test", "-vet=off", "-count=1", "-overlay", ovPath, "-run", "^TestZZReplay$", "-v", "-timeout", "120s"}
+	if doc.Race {
+		args = append(args, "-race")
+	}
+	cmd := exec.Command("go", append(args, doc.Package)...)
 	cmd.Dir = repoDir
 	cmd.Env = append(os.Environ(), "GOFLAGS=-mod=mod", "GOPROXY=off", "GOSUMDB=off", "GOTOOLCHAIN=local",
 		"ZZ_REPLAY="+assign, "ZZ_HARNESS="+doc.Harness)
@@ -144,6 +171,13 @@ func runNative(doc *ReplayDoc) (string, string) {
 		}
 	}
 	short := strings.Join(keep, "\n")
+	if doc.Race && strings.Contains(out, "WARNING: DATA RACE") {
+		short += "\nZZ-RACE (Go race detector)\n" + tail(out, 40)
+		if strings.HasPrefix(doc.Obligation, "guarded-by/") {
+			return "confirmed", short
+		}
+		return "no-replay", short
+	}
 	switch {
 	case strings.Contains(out, "ZZ-FAILED "+doc.Obligation+"\n") || strings.Contains(out, "ZZ-FAILED "+doc.Obligation+" "):
 		return "confirmed", short
